@@ -53,7 +53,7 @@ Definition bl_calc_offset (amount : Z) (ab vb : option bytes) : option (option b
         | None => None
         | Some r =>
             match vb with
-            | None => None
+            | None => Some (Some r)                      (* absent value blinder: the product *)
             | Some v =>
                 match bl_negate v with
                 | None => None
@@ -70,6 +70,8 @@ Definition bl_sub (a b : option bytes) : option (option bytes) :=
   match b with
   | None => Some a
   | Some bb =>
+      if match a with Some aa => bytes_eqb aa bb | None => false end then Some (Some bl_zero32)   (* a - a *)
+      else
       match bl_negate bb with
       | None => None
       | Some nb =>
@@ -87,12 +89,12 @@ Definition bl_add_offset (s : option bytes) (value : Z) (ab vb : option bytes) :
       match bl_calc_offset value ab vb with
       | None => None
       | Some so =>
+          match so with
+          | None => Some s                               (* zero amount without value blinder *)
+          | Some o =>
           match s with
           | None => Some so
           | Some ss =>
-              match so with
-              | None => None
-              | Some o =>
                   match bl_negate o with
                   | None => None
                   | Some nv =>
@@ -390,6 +392,14 @@ Fixpoint bl_tx_out (wos : list bl_wout) (pos : list bl_pout) : list bl_lin :=
   end.
 Definition bl_balanced (ws : list bl_win) (wos : list bl_wout) (p : bl_pset) : bool :=
   bl_lin_eqb (bl_lin_sum (bl_tx_in 0%N ws (bps_ins p))) (bl_lin_sum (bl_tx_out wos (bps_outs p))).
+
+(* zkpGenerator.UnblindInputs: the owned inputs a party obtains for the indexes it asks for are the
+   true openings of the prevouts of THIS packet (zero blinders for an explicit prevout), whatever
+   the generator was used for before *)
+Definition bl_unblind_inputs (ws : list bl_win) (idxs : list N) : list bl_owned :=
+  flat_map (fun i => match bl_nth ws i with
+                     | Some w => [bmk_owned i (bwi_value w) (Some (bwi_abf w)) (Some (bwi_vbf w))]
+                     | None => [] end) idxs.
 
 (* ================= surjection-proof tag lists =================
    A tag is what GeneratorGenerateBlinded receives: a 32-byte seed and a blinder.  The library regenerates
